@@ -112,7 +112,7 @@ def one_case(ctx, case):
     nb = -(-N // case["pos_bs"])
     neg_bs = case["neg_bs"] if case["neg_bs"] else case["pos_bs"]
     nontriv = nb >= 2 and case["k"] >= 1
-    ctx.count(f"starting_epoch={start}"); ctx.count("second_fit" if len(run_bounds) > 1 else "single_fit")
+    ctx.count("regime=" + case.get("regime", "ordinary")); ctx.count(f"starting_epoch={start}"); ctx.count("second_fit" if len(run_bounds) > 1 else "single_fit")
     ctx.case({k: case.get(k) for k in ("kind", "n", "h", "k", "lr", "epochs", "pos_bs", "neg_bs", "seed", "data", "bases", "start", "second_lr")}, nontrivial=nontriv,
              sample={"kind": kind, "n": n, "h": h, "N": N, "pos_bs": case["pos_bs"], "neg_bs": case["neg_bs"], "k": case["k"], "lr": case["lr"],
                      "epochs": case["epochs"], "batches_seen": len(log["batches"])})
@@ -191,11 +191,11 @@ def one_case(ctx, case):
             for si, sl in enumerate(m["grads"][ni]):
                 impl_g = g_all[pi].ravel()
                 scale = max(1.0, float(np.max(np.abs(impl_g))) if impl_g.size else 1.0)
-                ctx.point(f"grad[net{ni}][param{si}]", "property", impl_g, unbits(sl), bcase, scale=scale, rtol=2e-6, atol=1e-8,
+                ctx.point(f"grad[net{ni}][param{si}]", "property", impl_g, unbits(sl), bcase, scale=scale, rtol=5e-8, atol=1e-10,
                           sig=f"{kind}/grad", theorem=TH["grad"])
                 pi += 1
             ctx.point(f"params_after[net{ni}]", "property", flat(rec["after"][ni], order), unbits(m["after"][ni]), bcase, scale=1.0,
-                      rtol=2e-6, atol=1e-9, sig=f"{kind}/after", theorem=TH["after"])
+                      rtol=5e-8, atol=1e-10, sig=f"{kind}/after", theorem=TH["after"])
 
 
 def gen_cases(ctx, thorough):
@@ -228,6 +228,33 @@ def gen_cases(ctx, thorough):
                         "k": rng.choice([0, 1, 2, 3]), "lr": rng.choice([0.5, 0.05, 1e-3]), "epochs": rng.choice([1, 2, 3]), "seed": rng.randrange(1 << 30),
                         "start": rng.choice([1, 1, 2, 4]), "second_lr": (rng.choice([0.25, 0.01]) if second else None),
                         "second_data": (rows2 if second else None)})
+    # small-amplitude regime: strongly negative visible biases, all-ones outcomes measured with exactly one rotated site
+    for kind in ("cplx", "dm"):
+        for _ in range(4 if thorough else 1):
+            n, h, a = 3, rng.choice([1, 2]), 1
+            if kind == "dm":
+                am = qc.rand_prbm_params(rng, n, h, a, 0.4); ph = qc.rand_prbm_params(rng, n, h, a, 0.6, d_zero=True)
+            else:
+                am = qc.rand_rbm_params(rng, n, h, 0.4); ph = qc.rand_rbm_params(rng, n, h, 0.6)
+            am["b"] = [-rng.uniform(9.0, 14.0) for _ in range(n)]
+            data, bases = [], []
+            for i in range(5):
+                jj = rng.randrange(n)
+                data.append([1] * n if i else [0] * n)
+                bases.append("".join(rng.choice("XY") if j == jj else "Z" for j in range(n)) if i else "Z" * n)
+            out.append({"kind": kind, "n": n, "h": h, "a": a, "am": am, "ph": ph, "data": data, "bases": bases, "pos_bs": 5, "neg_bs": None,
+                        "k": 1, "lr": 1e-3, "epochs": 1, "seed": rng.randrange(1 << 30), "start": 1, "second_lr": None, "second_data": None,
+                        "regime": "small-amplitude"})
+    # one positive batch with more than 256 distinct bases
+    import itertools
+    n = 6
+    strings = ["".join(t) for t in itertools.product("XYZ", repeat=n)]
+    rng.shuffle(strings)
+    N = 262
+    bases = ["Z" * n] + [s_ for s_ in strings if s_ != "Z" * n][:N - 1]
+    out.append({"kind": "cplx", "n": n, "h": 1, "a": 1, "am": qc.rand_rbm_params(rng, n, 1, 0.5), "ph": qc.rand_rbm_params(rng, n, 1, 0.5),
+                "data": [[rng.randint(0, 1) for _ in range(n)] for _ in range(N)], "bases": bases, "pos_bs": N, "neg_bs": 3, "k": 1, "lr": 0.01,
+                "epochs": 1, "seed": rng.randrange(1 << 30), "start": 1, "second_lr": None, "second_data": None, "regime": "many-bases"})
     return out
 
 
